@@ -340,4 +340,9 @@ VARIANTS = [
                 "                    return True\n        return False\n\n"
                 "    def _ensure(self, region, near_addr, circuit_addr, transport):\n        if True:\n"
                 "                if not region.circuit or not region.circuit.is_alive:\n"}]},
+    # ------------------------------------------------------------------ audit round (anchored on the fixed text: inapplicable until the fixes are committed)
+    {'name': 'R2 near endpoint learnt as a far address again (audit C06#1 reverted)', 'file': 'hippolyzer/lib/proxy/socks_proxy.py', 'expect': 'C06.R2', 'old': '                # A near (SOCKS client side) endpoint must never be learnt as a far one, that would\n                # flip the direction inference for everything that endpoint sends from now on.\n                if remote_addr == source_addr or remote_addr in self.far_to_near_map.values():\n                    logging.warning("Got SOCKS packet addressed to near endpoint %s:%s, discarding" % remote_addr)\n                    return\n', 'new': ''},
+    {'name': 'P R2 near-endpoint test split into two guard clauses', 'file': 'hippolyzer/lib/proxy/socks_proxy.py', 'expect': 'silent', 'old': '                if remote_addr == source_addr or remote_addr in self.far_to_near_map.values():\n', 'new': '                if remote_addr == source_addr:\n                    return\n                if remote_addr in self.far_to_near_map.values():\n'},
+    {'name': 'R4 empty PacketAck swallowed again (audit C06#3 reverted)', 'file': 'hippolyzer/lib/proxy/circuit.py', 'expect': 'C06.R4', 'old': '        if had_blocks and not new_blocks:\n', 'new': '        if not new_blocks:\n'},
+    {'name': 'P R4 original block count taken with len()', 'file': 'hippolyzer/lib/proxy/circuit.py', 'expect': 'silent', 'old': '        had_blocks = bool(message["Packets"])\n', 'new': '        had_blocks = len(message["Packets"]) != 0\n'},
 ]
